@@ -56,6 +56,7 @@ def site_stmt(site, a):
         "nested-defined": ".if " + "defined(" * 3000 + "zz" + ")" * 3000 + " { nop }",
         "macro-blocks-3": ".macro zm3() { {{{ zm3() }}} }\nzm3()", "macro-blocks-95": ".macro zm95() { " + "{" * 95 + " zm95() " + "}" * 95 + " }\nzm95()",
         "macro-ifs-40": ".macro zmi() { " + ".if 1 {" * 40 + " zmi() " + "}" * 40 + " }\nzmi()",
+        "loop-untaken-loop": ".loop 4096 {\n.if 0 {\n.loop 4096 { nop }\n}\n}",
         "segblock-untaken": '.segment "default" {\n.if 0 { nop } else { inx }\n.byte 1\n}\nlda #1\n.byte 2',
         "segblock-untaken-own": '.define segment { name = "zw" start = $5000 }\n.segment "zw" {\n.if 1 { nop } else { inx }\n}\nldx #nosuch\n.segment "zw" { .if 0 { iny } }\ndex',
 
